@@ -81,14 +81,14 @@ def split3 (s : String) : Option (String × String × String) :=
   | a :: b :: rest => some (a, b, ":".intercalate rest)
   | _ => none
 
-def isSeen : CType → Bool
-  | .seen _ => true
-  | _ => false
-
-/-- a composite type with a repeated type (`rec`) among its initializer parameters: the encoder
-visits fields before initializers, the decoder initializers before fields -/
+/-- a composite type one of whose initializer parameters mentions a composite type that is also
+mentioned in its fields: the encoder visits fields before initializers (and writes the bare type ID
+in the initializer), the decoder initializers before fields -/
 def hasSeenInInits : CType → Bool
-  | .comp _ _ _ _ is => isAny isSeen is
+  | .comp _ _ _ fs is =>
+    isAny (fun t => match t with
+      | .comp _ id _ _ _ => fsAny (fun u => match u with | .comp _ id' _ _ _ => id == id' | _ => false) fs
+      | _ => false) is
   | _ => false
 
 def classifyDecErr (v : CValue) : String :=
